@@ -159,6 +159,19 @@ fn drive_lsp(text: &str, out: &mut Vec<(String, String)>, counters: &mut u64) ->
     if std::env::var("VERIF_TIMING").is_ok() {
         eprintln!("timing per method (s): {:?}", timing);
     }
+    // the note that references n1 is re-sent unchanged, then both are queried again (stale ids of replaced versions)
+    s.did_change("n2", "# two\n\n[x](n1)\n");
+    for k in ["n1", "n2"] {
+        let u = s.uri(k);
+        for (m, p) in [
+            ("textDocument/inlayHint", json!({"textDocument": {"uri": u}, "range": {"start": {"line": 0, "character": 0}, "end": {"line": 9999, "character": 0}}})),
+            ("textDocument/references", json!({"textDocument": {"uri": u}, "position": {"line": 0, "character": 0}, "context": {"includeDeclaration": false}})),
+            ("textDocument/documentSymbol", json!({"textDocument": {"uri": u}})),
+        ] {
+            *counters += 1;
+            let _ = s.request(m, p);
+        }
+    }
     // every panic on any server thread is a finding, also when it was turned into an error response
     for p in mon::drain_thread_panics() {
         out.push((p.signature(), format!("server thread `{}` at {}:{}: {}", p.thread, p.file, p.line, p.message.chars().take(160).collect::<String>())));
